@@ -180,8 +180,10 @@ PENDING_REASON = 'check not yet built in this session (planned, see DESIGN.md se
 
 
 # additions of round 8: parts that several checks share (appended to the level text of each)
-CROSS = (' A cross-API call-order pass puts, per event code, every public function that takes one before the functions of this check (every ordered pair from a '
-         'restored state; each answer against the same call made first).')
+CROSS = (' A cross-API call-order pass puts, per event code, every public function that takes one - refused calls and caller-built graders included - before the '
+         'functions of this check (every ordered pair from a restored state; each answer against the same call made first); a saturation pass asks each probe call '
+         'again after 65..1025 other distinct calls; the same calls are compared across interpreter / ambient modes (-O, -OO, DEBUG logging, directed decimal rounding, '
+         'a line tracer).')
 CONC = (' A concurrency pass runs two threads inside these functions under the interleaving explorer of C16 (all schedules at source-line granularity with at most '
         '2 pre-emptions), each answer against the same call made alone.')
 for _pid in ('C01', 'C05', 'C07', 'C09', 'C10', 'C11', 'C12', 'C14', 'C15', 'C17'):
